@@ -1,4 +1,5 @@
 import Sudachi.Model.LayersLoad
+import Sudachi.Model.LayersReads
 /-!
 # Line protocol of property C12 (parsers / printers around `Model/Layers.lean`)
 
@@ -10,6 +11,11 @@ C12 grammar idx=.. g=<pos;..> calls=<g|r|a|f:pos;..>     (get id / register_pos 
 C12 stack  idx=.. sysrows=<row;..> plug=<a|f:pos;..> base=sys|plug pre=all|sys mv=any|limit users=<row;..>|<row;..>|.. wids=<raw,..>
              pre  = which `new_user`/`preload_pos` the tree has (`PreVariant`): `all` = pinned (absent = `all`), `sys` = repaired
              mv   = which `merge_user_dictionary` the tree has (`MergeVariant`): `any` = pinned (absent = `any`), `limit` = repaired
+C12 reads  idx=.. sysrows=<row;..> plug=<a|f:pos;..> pre=all|sys mv=any|limit users=<src>^<src>^..|<src>^..|.. bad=<b>^<b>^..|<b>^..|..
+             one user dictionary = ONE builder that is given the sources in order and goes on after a rejected one;
+             src = <row;..> (every line of the CSV text, also the rejected line and the lines behind it);
+             b = `-` (no damaged line) | <k>e (line k malformed in a column before the splits) | <k>l (line k has an empty surface);
+             a line the reader rejects for its content (A-mode row with splits, ...) needs no mark
 C12 poslimit idx=.. mv=any|limit s=<system POS> q=<plugin POS> users=<own POS count,..> tabs=<table number,..> w=<dic.word,..>
              row  = surface:headword:reading:mode:pos:A:B:W      pos = c1.c2.c3.c4.c5.c6 (interned strings)
              A, B = `*` or units joined by `/`;  unit = U<n> | <n> | I,<surface>,<pos>,<reading>
@@ -315,6 +321,81 @@ def handleStack (toks : List (List Char)) : String :=
     | _, _ => "bad-op"
   | _, _, _, _, _ => "bad-op"
 
+/-! ### `reads`: user dictionaries compiled by a builder that saw rejected sources in between -/
+
+def showFail : RowFail → String
+  | .err e => "err:" ++ showErr e
+  | .malformed => "err:Malformed"
+  | .emptySurface => "err:EmptySurface"
+  | .panic => "PANIC"
+
+/-- `-` | `<k>e` | `<k>l` -/
+def parseBad (s : List Char) : Option (Option (Nat × Nat)) :=
+  if s = ['-'] then some none
+  else match s.reverse with
+    | 'e' :: rest => (nat? rest.reverse).map (fun k => some (k, 1))
+    | 'l' :: rest => (nat? rest.reverse).map (fun k => some (k, 2))
+    | _ => none
+
+def markLines (rows : List Row) (bad : Option (Nat × Nat)) : List Line :=
+  (rows.zip (List.range rows.length)).map (fun ri =>
+    ⟨ri.1, match bad with | some (k, d) => if ri.2 = k then d else 0 | none => 0⟩)
+
+def parseSources (srcs bads : List Char) : Option (List (List Line)) :=
+  match allSome ((splitOn '^' srcs).map parseRows), allSome ((splitOn '^' bads).map parseBad) with
+  | some rs, some bs => if rs.length = bs.length then some ((rs.zip bs).map (fun x => markLines x.1 x.2)) else none
+  | _, _ => none
+
+def zipSources : List (List Char) → List (List Char) → Option (List (List (List Line)))
+  | [], [] => some []
+  | s :: ss, b :: bs =>
+    match parseSources s b, zipSources ss bs with
+    | some x, some xs => some (x :: xs)
+    | _, _ => none
+  | _, _ => none
+
+def showReads (fs : List (Nat × Option RowFail)) : String :=
+  joinWith "," (fs.map (fun f => match f.2 with | none => "ok" ++ toString f.1 | some e => showFail e))
+
+def handleReads (toks : List (List Char)) : String :=
+  match (kv? toks "sysrows").bind parseRows, kv? toks "plug", kv? toks "users", kv? toks "bad" with
+  | some sysrows, some plug, some users, some bad =>
+    match allSome ((items ';' plug).map parsePlug), zipSources (splitOn '|' users) (splitOn '|' bad) with
+    | some plugs, some usrcs =>
+      let pre : PreVariant := if kv? toks "pre" = some "sys".toList then .sysOnly else .all
+      let mv : MergeVariant := mergeVariantOf toks
+      match build none sysrows with
+      | .err e => "err:Build:0:" ++ showErr e
+      | .panic _ => "PANIC:Build:0"
+      | .ok sysB =>
+        match readPosTable sysB with
+        | .err e => "err:Load:" ++ showErr e
+        | .panic _ => "PANIC:Load"
+        | .ok sysPos =>
+          let base : Base := ⟨sysPos, sysPos.length, sysWordsOf sysrows sysB⟩
+          let res := usrcs.map (buildReads (some (preOf pre base)))
+          let head := "r=" ++ joinWith "|" (res.map (fun x => showReads x.1)) ++
+            " b=" ++ joinWith "|" (res.map (fun x => match x.2 with | .ok _ => "ok" | .err e => "err:" ++ showErr e | .panic _ => "PANIC"))
+          match allSome (res.map (fun x => match x.2 with | .ok b => some b | _ => none)) with
+          | none => head
+          | some builts =>
+            let head := head ++ " t=" ++ joinWith "|" (builts.map (fun b => joinWith ";" (b.posRows.map showPos))) ++
+              " ids=" ++ joinWith "|" (builts.map (fun b => showNats (b.words.map (·.posId))))
+            match readUsers builts with
+            | .err e => head ++ " err:Load:" ++ showErr e
+            | .panic _ => head ++ " PANIC:Load"
+            | .ok us =>
+              match loadFullV mv (fun _ _ => .panic "no estimate") sysPos ⟨sysB.words, 255, []⟩ [] 1 1 [] plugs 1
+                  (us.map (fun u => ⟨u.1, u.2, []⟩)) with
+              | .err e => head ++ " err:Load:" ++ showErr e
+              | .panic _ => head ++ " PANIC:Load"
+              | .ok st =>
+                let d := st.dict
+                head ++ " ok pos=" ++ joinWith ";" (d.posList.map showPos) ++
+                  " words=" ++ joinWith ";" (wordLines d d.set.lexicons 0)
+    | _, _ => "bad-op"
+  | _, _, _, _ => "bad-op"
+
 /-! ### `poslimit`: the merged POS list at the edge of what a `u16` id addresses
 
 The dictionaries are described by their sizes only (the harness checks on the real binaries that they have this shape):
@@ -389,6 +470,7 @@ def handle (op : List Char) (toks : List (List Char)) : String :=
   | "lexset" => handleLexset toks
   | "stack" => handleStack toks
   | "poslimit" => handlePoslimit toks
+  | "reads" => handleReads toks
   | "grammar" => handleGrammar toks
   | _ => "bad-op"
 
